@@ -148,7 +148,9 @@ def set_owner_process(uid, gid, initgroups=False):
         try:
             username = get_username(uid)
         except KeyError:
-            pass
+            # no passwd entry, hence no groups of its own: but the worker
+            # must not keep those of the master either
+            os.setgroups([gid])
     if username is not None:
         os.initgroups(username, gid)
 
